@@ -107,6 +107,10 @@ Definition mat2quat (eigmax : M3 -> Qt) (M : M3) : Qt :=
   let q := eigmax M in
   if Rlt_dec (qw q) 0 then qneg q else q.
 
+(* q / sqrt(q @ q): set_qform stores a unit quaternion (normalised in MAX_FLOAT precision) *)
+Definition qnormalize (q : Qt) : Qt :=
+  let n := sqrt (qnorm2 q) in mkQt (qw q / n) (qx q / n) (qy q / n) (qz q / n).
+
 (* ------------------------------------------------------------- nifti1.py qform *)
 Record qhdr := mkQH { h_qfac : R; h_zooms : V3; h_b : R; h_c : R; h_d : R; h_off : V3 }.
 
@@ -119,7 +123,7 @@ Definition set_qform_R (polar : M3 -> M3) (eigmax : M3 -> Qt) (A : Aff) : qhdr :
   let R0 := div_cols (lin A) zooms in
   let qfac := if Rlt_dec 0 (det R0) then 1 else -1 in
   let R1 := if Rlt_dec 0 (det R0) then R0 else negcol3 R0 in
-  let q := mat2quat eigmax (polar R1) in
+  let q := qnormalize (mat2quat eigmax (polar R1)) in
   mkQH qfac zooms (qx q) (qy q) (qz q) (tr A).
 
 (* Nifti1Header.get_qform(); None = ValueError / HeaderDataError *)
